@@ -7,6 +7,7 @@ import (
 	"go/token"
 	"go/types"
 	"math/big"
+	"sort"
 	"strings"
 
 	"golang.org/x/tools/go/packages"
@@ -84,6 +85,7 @@ type Engine struct {
 	usedNilChan  bool
 	loopDepth    int
 	lastAnyArgs  []Value
+	published    map[string]bool // locally allocated objects that have been sent on a stream
 	globalErrs   map[string]*Term
 	extraStreams []*Term
 }
@@ -626,6 +628,31 @@ func (e *Engine) send(st *State, ch VStream, v Value, where string) {
 	default:
 		unsup("send of %T", v)
 	}
+	// an object allocated here and sent away is published: its fields, tracked as local state so far, become facts about
+	// the object (what a receiver reads through the stream); the sender does not write to it afterwards (checked)
+	if vt, ok := v.(VTerm); ok && vt.T.Sort == SRef && e.localRefs[vt.T.String()] {
+		if dt, ok := e.dynType[vt.T.String()]; ok {
+			if _, tname := structOf(dt); tname != "anon" {
+				pre := "fld:" + vt.T.String() + "."
+				var keys []string
+				for k := range st.mem {
+					if strings.HasPrefix(k, pre) && !strings.Contains(k[len(pre):], ".") {
+						keys = append(keys, k)
+					}
+				}
+				sort.Strings(keys)
+				for _, k := range keys {
+					val := st.mem[k]
+					st.assume(mkEq(mkApp("fld_"+tname+"_"+k[len(pre):]+"__"+sortTag(val.Sort), val.Sort, vt.T), val))
+					delete(st.mem, k)
+				}
+				if e.published == nil {
+					e.published = map[string]bool{}
+				}
+				e.published[vt.T.String()] = true
+			}
+		}
+	}
 	// causal check hook
 	e.onSend(st, ch, n, where)
 	e.setSent(st, ch.ID, mkArith("+", n, mkInt(1)))
@@ -728,6 +755,13 @@ func (e *Engine) eval(x ast.Expr, st *State) Value {
 				if o, ok := e.info().ObjectOf(id).(*types.Var); ok {
 					if _, bound := st.vars[o]; bound {
 						return VAddr{Obj: o}
+					}
+				}
+			}
+			if se, ok := ast.Unparen(ex.X).(*ast.SelectorExpr); ok {
+				if sel := e.info().Selections[se]; sel != nil && sel.Kind() == types.FieldVal && len(sel.Index()) == 1 {
+					if b, ok := e.eval(se.X, st).(VTerm); ok && b.T.Sort == SRef {
+						return VFieldAddr{Base: b, Field: se.Sel.Name, Typ: sel.Type()}
 					}
 				}
 			}
@@ -1027,6 +1061,9 @@ func (e *Engine) readField(st *State, base VTerm, field string) Value {
 
 func (e *Engine) writeField(st *State, base VTerm, field string, v Value, where string) {
 	rs := base.T.String()
+	if e.published[rs] {
+		unsup("write to field %s of an object after it was sent on a stream at %s", field, where)
+	}
 	if !e.localRefs[rs] && !e.modifiesOK[rs] {
 		e.staticObl("frame/write-"+field, where, false, "write to field "+field+" of "+rs+" which is neither local nor in a modifies clause", nil)
 	}
